@@ -5,4 +5,4 @@ package main
 import "github.com/esimov/gogu/btree"
 
 func btreeShape(t *btree.BTree[int, int]) string { return "nohook" }
-func btreeAdversary(n int, variant int) []int   { return nil }
+func btreeAdversary(n int, variant int) []int    { return nil }
